@@ -82,7 +82,8 @@ fn main() {
 		"formats" => formats::run(&ctx, &cmd),
 		"c13" => c13_concurrent::run(&ctx),
 		"c13probe" => c13_concurrent::probe(ctx.replay.as_deref().unwrap_or("")),
-		"pipe" | "c06" | "c08" | "c09" => pipeline::run(&ctx, &cmd),
+		"pipe" | "c08" | "c09" => pipeline::run(&ctx, &cmd),
+		"c06" => (|| { let mut col = util::Collector::new(&ctx.out)?; pipeline::run_into(&ctx, &cmd, &mut col)?; http::run_c06_server(&ctx, &mut col)?; col.finish() })(),
 		// C02 / C03: pipeline operators (model-compared) + container readers (spec level)
 		"c02" | "c03" => (|| { let mut col = util::Collector::new(&ctx.out)?; pipeline::run_into(&ctx, &cmd, &mut col)?; mvt::run_stream_vs_lookup(&ctx, &mut col)?; formats::run_into(&ctx, &cmd, &mut col)?; if cmd == "c03" { c16::run_into(&ctx, &mut col, false)?; } col.finish() })(),
 		"c01" => formats::run(&ctx, &cmd),
